@@ -187,11 +187,14 @@ pub fn interval(args: &[String]) {
     }
     // stiff problems on the implicit methods: Newton failures, step rejections, singular iteration matrices (C18 counters)
     for case in 0..(cases / 6 + 4) {
-        let kind = *rng.pick(&[Kind::VdPStiff, Kind::Robertson, Kind::Stiff, Kind::VdPStiff]);
-        let method = if rng.chance(0.6) { Method::RADAU } else { Method::BDF };
-        let xend = match kind { Kind::VdPStiff => rng.range(0.5, 30.0), Kind::Robertson => 10f64.powf(rng.range(0.0, 3.0)), _ => rng.range(0.5, 3.0) };
-        let rtol = 10f64.powf(-rng.range(2.5, 6.0));
-        let first = match rng.below(4) { 0 => Some(1e-2), 1 => Some(1.0), _ => None };
+        let mut kind = *rng.pick(&[Kind::VdPStiff, Kind::Robertson, Kind::Stiff, Kind::VdPStiff]);
+        let mut method = if rng.chance(0.6) { Method::RADAU } else { Method::BDF };
+        let mut xend = match kind { Kind::VdPStiff => rng.range(0.5, 30.0), Kind::Robertson => 10f64.powf(rng.range(0.0, 3.0)), _ => rng.range(0.5, 3.0) };
+        let mut rtol = 10f64.powf(-rng.range(2.5, 6.0));
+        let mut first = match rng.below(4) { 0 => Some(1e-2), 1 => Some(1.0), _ => None };
+        // the first eight: Van der Pol ending just before / inside its first fast transition (t = 807), where the landing
+        // step itself runs into Newton failures
+        if case < 8 { kind = Kind::VdPStiff; method = if case < 6 { Method::RADAU } else { Method::BDF }; xend = [805.0, 805.5, 806.0, 806.5, 807.0, 808.0, 805.5, 806.5][case]; rtol = 1e-3; first = None; }
         let c = Cfg { kind, method, x0: 0.0, xend, rtol, atol: rtol * 1e-3, first, maxstep: None, nmax: None };
         let mut p = Prob::new(kind);
         p.user_jac = rng.chance(0.5);
@@ -206,7 +209,8 @@ pub fn interval(args: &[String]) {
             Ok(Err(_)) => { extra = "\"status\":\"Err\",".into(); }
             Ok(Ok(sol)) => {
                 extra = format!("\"status\":\"{:?}\",\"n\":{},\"nrejct\":{},", sol.status, sol.t.len(), sol.nrejct);
-                if sol.nfev != p.count.get() { why = format!("nfev = {} but the stepper made {} right-hand-side evaluations", sol.nfev, p.count.get()); key = "c18-nfev"; }
+                if sol.status == Status::Success && (sol.t.last().unwrap() - xend).abs() > 1e-12 * (1.0 + xend.abs()) { why = format!("Success but the last sample is t = {} (xend = {})", sol.t.last().unwrap(), xend); key = "c03-success-not-reached"; }
+                else if sol.nfev != p.count.get() { why = format!("nfev = {} but the stepper made {} right-hand-side evaluations", sol.nfev, p.count.get()); key = "c18-nfev"; }
                 else if sol.njev != p.jcount.get() { why = format!("njev = {} but {} Jacobian evaluations were made", sol.njev, p.jcount.get()); key = "c18-njev"; }
                 else if sol.nstep < sol.naccpt { why = format!("nstep {} < naccpt {}", sol.nstep, sol.naccpt); key = "c18-nstep"; }
                 else if sol.status == Status::Success && !sol.y.iter().all(|v| finite(v)) { why = "Success with non-finite values".into(); key = "c03-nonfinite-success"; }
@@ -359,7 +363,15 @@ pub fn protocol(args: &[String]) {
         // the first 40 cases are a sweep: slowly varying problem (long automatic first step) against a small max_step,
         // every adaptive method, both directions
         let directed = case < 40;
+        // cases 40..52: a non-autonomous problem on every method, both directions (what ModifiedSolution re-evaluates matters
+        // only if the right-hand side depends on x)
+        let directed2 = case >= 40 && case < 52;
         let mut c = gen_cfg(&mut rng);
+        if directed2 {
+            let m = ALL_METHODS[(case - 40) % 6];
+            let back = (case - 40) / 6 == 1;
+            c = Cfg { kind: Kind::Riccati, method: m, x0: if back { 1.0 } else { -0.5 }, xend: if back { -0.5 } else { 1.0 }, rtol: 1e-5, atol: 1e-8, first: None, maxstep: None, nmax: None };
+        }
         if directed {
             let m = [Method::RK23, Method::DOPRI5, Method::DOP853, Method::RADAU, Method::BDF][case % 5];
             let back = (case / 5) % 2 == 1;
@@ -370,13 +382,13 @@ pub fn protocol(args: &[String]) {
         let span = (c.xend - c.x0).abs();
         if span < 1e-6 || span > 10.0 { continue; }
         let sgn = (c.xend - c.x0).signum();
-        if !directed {
+        if !directed && !directed2 {
             if rng.chance(0.3) { c.maxstep = Some(span * rng.range(0.004, 0.05)); }
             // C11 uses well-formed limits only
             c.first = if rng.chance(0.5) { Some(sgn * span * rng.range(0.001, 0.05)) } else { None };
             if let (Some(f), Some(m)) = (c.first, c.maxstep) { if f.abs() > m { c.first = Some(sgn * m * 0.5); } }
         }
-        let linear = directed || rng.chance(0.4);
+        let linear = directed || (!directed2 && rng.chance(0.4));
         if linear && !directed { c.kind = *rng.pick(&[Kind::Harmonic, Kind::Decay3, Kind::Slow]); }
         let mut p = Prob::new(c.kind);
         p.record_times = true;
